@@ -106,9 +106,9 @@ func NewHist(seed int64, cw *CaseWriter, rep *lib.Report) *Hist {
 	return h
 }
 
-func (h *Hist) id(i int) int64        { return int64(i + 1) }
-func (h *Hist) acc(i int) sdk.AccAddress { return h.keys[i].Acc() }
-func (h *Hist) val(i int) string      { return sdk.ValAddress(h.keys[i].Acc()).String() }
+func (h *Hist) id(i int) int64               { return int64(i + 1) }
+func (h *Hist) acc(i int) sdk.AccAddress     { return h.keys[i].Acc() }
+func (h *Hist) val(i int) string             { return sdk.ValAddress(h.keys[i].Acc()).String() }
 func (h *Hist) hexAddr(i int) common.Address { return common.BytesToAddress(h.keys[i].Acc()) }
 
 func (h *Hist) snap() *Snap {
